@@ -32,7 +32,7 @@ func init() {
 	Register("C22", &Info{
 		Run:   runC22,
 		Quick: 7500, Thor: 1000000,
-		Rule: "a world = one ALPS-capable fingerprint (parrots whose spec carries application_settings on either code point, generated specs) with a drawn Config.ApplicationSettings map (with PSK-capable parrots optionally as the resumed second connection of a history) against the reference server, which negotiates an ALPN protocol and answers with application_settings on the old (17513) or new (17613) code point with drawn server settings; client authentication requested or not (client with and without a certificate); strata: normal, server omits ALPN but sends ALPS, TLS 1.2 server that puts an application_settings extension into its ServerHello, code point different from the one the client offered; oracle: normal => handshake completes, ConnectionState.PeerApplicationSettings equals the server's bytes, the server received a client EncryptedExtensions message carrying exactly the settings configured for the negotiated protocol and verified the client Finished over a transcript including it; without ALPN or below TLS 1.3 => nothing is exposed (TLS 1.3 without ALPN: abort); non-trivial = ALPS extension in the server's EncryptedExtensions (or ServerHello); distinct = (fingerprint, code point, protocol, settings, stratum)",
+		Rule: "a world = one ALPS-capable fingerprint (parrots whose spec carries application_settings on either code point, generated specs) with a drawn Config.ApplicationSettings map (with PSK-capable parrots optionally as the resumed second connection of a history) against the reference server, which negotiates an ALPN protocol and answers with application_settings on the old (17513) or new (17613) code point with drawn server settings, placed after or before the ALPN extension of EncryptedExtensions; client authentication requested or not (client with and without a certificate); strata: normal, server omits ALPN but sends ALPS, TLS 1.2 server that puts an application_settings extension into its ServerHello, code point different from the one the client offered; oracle: normal => handshake completes, ConnectionState.PeerApplicationSettings equals the server's bytes, the server received a client EncryptedExtensions message carrying exactly the settings configured for the negotiated protocol and verified the client Finished over a transcript including it; without ALPN or below TLS 1.3 => nothing is exposed (TLS 1.3 without ALPN: abort); non-trivial = ALPS extension in the server's EncryptedExtensions (or ServerHello); distinct = (fingerprint, code point, protocol, settings, stratum)",
 		Assumptions: []string{"'rejects application settings under TLS below 1.3' is read as 'never exposes or answers them'; an application_settings extension in a TLS 1.2 ServerHello is otherwise an unknown extension"},
 		Real:        []string{"utls client ALPS path from /repo"},
 		Stub:        []string{"reference server (sim/refsrv) with ALPS support", "transport, clock, crypto/rand"},
@@ -455,6 +455,11 @@ func runC22(c *Ctx) {
 	cfg.NextProtos = []string{proto}
 	cfg.Byz.ALPSCodepoint = offeredCP
 	cfg.Byz.ALPSSettings = serverSettings
+	// the order of extensions inside EncryptedExtensions is the server's business (RFC 8446 4.2):
+	// application_settings may come before application_layer_protocol_negotiation
+	if cfg.Byz.ALPSFirst = ch.Bool(40, "alps-before-alpn"); cfg.Byz.ALPSFirst {
+		c.Probe("alps-before-alpn")
+	}
 	switch stratum {
 	case "no-alpn":
 		cfg.Byz.ALPSWithoutALPN = true
